@@ -9,20 +9,21 @@ def main(tier):
     c.build('plain', ['c02'])
     c.build('asan', ['c02'])
     if quick:
-        plain = ['h-q', 'v', 'u-q', 'r-q', 'i-q', 'ip-q', 'm', 'text-1']
+        plain = ['h-q', 'h-a', 'v', 'u-q', 'r-q', 'i-q', 'ip-q', 'm', 'text-1']
         asan = ['h-a', 'v', 'r-q', 'i-q', 'text-1']
     else:
         plain = ['h-t3', 'h-t4', 'v', 'u-t', 'r-t', 'i-t', 'ip-t', 'm', 'text-1', 'text-2']
         asan = ['h-a', 'h-q', 'v', 'u-q', 'r-q', 'i-q', 'ip-q', 'm', 'text-1']
     for f in plain:
-        c.run_family('plain', 'c02', f, per_case_timeout=5)
+        # service-history dimension (parsers/printers with a past): everywhere, except the largest quick family
+        c.run_family('plain', 'c02', f, per_case_timeout=5, args=['--hist=0'] if (quick and f == 'h-q') else [])
     for f in asan:
         c.run_family('asan', 'c02', f, per_case_timeout=20)
     return c.finish(
         rule='a case is one model spec decoded from its index (mixed radix / block table; index -> spec is injective within a family) or one '
              '(attribute position(s), text) edit of a fixed full-featured model; judged = cases taken through: API build -> validator -> my own XML '
              'rendering read by the strict parser and compared with the API-built model (canonical dump through public getters) -> print -> independent '
-             'libxml2 well-formedness -> strict parse -> same dump -> print -> parse -> same dump. Families: h = every labelled rooted forest on <= 3 '
+             'libxml2 well-formedness -> strict parse -> same dump -> print -> parse -> same dump; then (service-history dimension; all families, in the quick tier all but h-q) the same printed text is read back by four more strict parsers with a past (has read this document before / read a CellML 1.1 document permissively / read non-XML and an error-ridden 2.0 document / all of these plus the documents of cases i-1 and i-2) - same dump, same number of issues as the fresh parser - and printed by a printer that has printed another model. Families: h = every labelled rooted forest on <= 3 '
              '(quick; thorough 4) components x 1|2 variables x every subset of <= 2 (thorough: <= 3 on 3 components) admissible variable pairs x every '
              'listing order x orientation x 5 id patterns x 2 name orders (h-a, the sanitizer sub-family of the quick tier: <= 2 components, subsets of <= 3); v = variable attribute product; u = units (1 definition: all '
              '(reference,prefix,exponent,multiplier)^<=2; 2 and 3 definitions: every acyclic reference structure, every listing order); r = resets '
